@@ -14,7 +14,7 @@ from core import VERIF, quiet, repo_tree_hash
 
 quiet()
 CACHE = os.path.join(VERIF, ".cache")
-HARNESS_VERSION = "8"
+HARNESS_VERSION = "9"
 
 SPECIALS = [
     # redox pairs that reach the reagent templates, halide losses, ions, heavy elements, markers, peroxides
@@ -43,6 +43,11 @@ SPECIALS = [
     # isotope-labelled hydrogen: explicit graph atoms bonded to heavy atoms (D2 addition, deuterated reagents, D/H exchange)
     "C=C.[2H][2H]>>[2H]CC[2H]", "[2H]O[2H].CC(=O)Cl>>CC(=O)O[2H]", "CC(=O)C.[2H][2H]>>CC(O[2H])([2H])C", "[2H]C([2H])([2H])O>>[2H]C([2H])=O",
     "C#C.[3H][3H]>>[3H]C=C[3H]", "CC=O.[2H][2H]>>CC([2H])O",
+    # one reduction / oxidation per functional group the group matcher knows, whether or not a reagent template is mapped to
+    # the group today (nitrile, imine, alkene, alkyne, nitro, azide, ester, acid, amide; sulfide, alkene, amine, diol, aldehyde)
+    "CC#N>>CCN", "N#Cc1ccccc1>>NCc1ccccc1", "CC=NC>>CCNC", "C=CC>>CCC", "C#CC>>C=CC", "O=[N+]([O-])c1ccccc1>>Nc1ccccc1", "CN=[N+]=[N-]>>CN",
+    "CC(=O)OC>>CCO.CO", "CC(=O)O>>CCO", "CC(=O)N>>CCN", "CC=O>>CC(=O)O", "CSC>>CS(C)=O", "C=C>>C1CO1", "CN(C)C>>C[N+](C)(C)[O-]",
+    "CC(O)CO>>CC(=O)C=O", "CCO>>CC(=O)O", "Cc1ccccc1>>O=C(O)c1ccccc1",
 ]
 
 
@@ -239,6 +244,10 @@ def hit_by_real_timeout(row):
 def compare_trace(ctx, tr, layer="Pipeline"):
     """model vs implementation on every batch of a traced run; also monitors the oracle laws"""
     n = 0
+    if tr.get("out") is not None and len(tr["out"]) != len(tr["inputs"]):
+        # the model returns one row per input; rows (whole batches, typically) are missing from the real result
+        ctx.corr_break(layer + ":rows-lost", {"inputs": len(tr["inputs"]), "batch_size": tr.get("batch_size")},
+                       "%d rows" % len(tr["inputs"]), "%d rows" % len(tr["out"]))
     for bt in tr["batches"]:
         if bt.get("error"):
             ctx.corr_break(layer + ":batch-raised", {"n": bt.get("n_in")}, "model never raises", bt["error"])
